@@ -108,3 +108,43 @@ Proof.
 Qed.
 
 End JR.
+
+(** ** a restart of the whole signer is invisible on every channel of a joint history *)
+
+Section JRestart.
+Variable warn : tag -> bool.
+Variable prof : profile.
+Hypothesis W1 : warn TRevokeNewSigned = false.
+Hypothesis W2 : warn TRevokeNotClosed = false.
+Hypothesis W3 : warn THolderNotRevoked = false.
+Hypothesis W4 : warn TOther = false.
+
+Lemma restart_identity sl : slot_durable sl -> fst (step warn prof sl Restart) = sl.
+Proof.
+  intros Hd. destruct sl as [|[m d]]; unfold step; cbn [step0 st ok0 fst crash]; [reflexivity|].
+  cbn [slot_durable mem disk] in *. subst. reflexivity.
+Qed.
+
+Lemma restarts_identity k : forall sg,
+  slot_durable (fst sg) -> fst (grun warn prof sg (repeat Restart k)) = fst sg.
+Proof.
+  induction k as [|k IH]; intros sg Hd; cbn [repeat grun]; [reflexivity|].
+  assert (E : fst (fst (gstep warn prof sg Restart)) = fst sg)
+    by (rewrite (gstep_slot warn prof); apply restart_identity; exact Hd).
+  rewrite IH; [exact E | rewrite E; exact Hd].
+Qed.
+
+Theorem joint_restart_invisible nch mf mp jops ch :
+  Forall jwf jops -> jshort nch jops ->
+  let s := jrun warn prof nch mf mp (jinit warn prof) jops in
+  slot_durable (fst (jc s ch)) /\
+  fst (jc (fst (jstep warn prof nch mf mp s JRestart)) ch) = fst (jc s ch).
+Proof.
+  intros Hwf Hs s.
+  pose proof (joint_durable warn prof W1 W2 W3 W4 nch mf mp jops ch Hwf Hs) as Hd. fold s in Hd.
+  split; [exact Hd|].
+  rewrite jstep_jc. cbn [plan with_crash st ok0 fst snd].
+  rewrite ops_for_restart_all. apply restarts_identity. exact Hd.
+Qed.
+
+End JRestart.
